@@ -57,7 +57,9 @@ def serWalk {σ} (bld : σ → ClassId → Option Str → σ × Except Err Meta)
       match bld s c f.ns with
       | (s', .error e) => (s', .error e)
       | (s', .ok m) =>
-        serWalk bld rest s' (⟨m.vars, targetUri v.qname⟩ :: f :: fs) (out ++ wrapperStart v ++ [v.qname])
+        -- the classes of the child values get `meta.namespace` of this class (repair c01g-01; before:
+        -- the namespace of the element name `v.qname`)
+        serWalk bld rest s' (⟨m.vars, targetUri m.qname⟩ :: f :: fs) (out ++ wrapperStart v ++ [v.qname])
   | .leaf _ :: rest, s, [], out => serWalk bld rest s [] out
   | .leaf i :: rest, s, f :: fs, out =>
     match f.vars[i]? with
